@@ -103,6 +103,10 @@ def rewrites_of(prog):
             continue
         yield (f"let@{i}", Prog([From("pre_x")] + main[i:], lets=[("pre_x", main[:i])]))
         yield (f"into@{i}", Prog([From("pre_x")] + main[i:], into=[("pre_x", main[:i])]))
+        if main[0].k == "from" and isinstance(main[0].table, str) and not main[0].alias and "." not in main[0].table:
+            # the prefix named like the table it reads: the let shadows the table for the rest of the program only
+            tb = main[0].table
+            yield (f"let-shadow@{i}", Prog([From(tb)] + main[i:], lets=[(tb, main[:i])]))
         body = pipe_text(main[:i], "full", "    ")
         yield (f"module-let@{i}", TextProg("module m {\n  let pre_x = (\n" + body + "\n  )\n}\n" + pipe_text([From("m.pre_x")] + main[i:]) + "\n"))
     # 3. user functions for scalar expressions in derive / filter
